@@ -26,8 +26,10 @@ macro_rules! dispatch {
 
 /// Encode an AST with the real encoder (the "sender node"). Err carries a violation text.
 pub fn lib_encode<C: Codec>(a: &Ast) -> Result<(C::Packet, Vec<u8>), String> {
-    let Some(p) = C::from_ast(a) else {
-        return Err(format!("bridge: the library's constructors reject a reference-valid value: {a:?}"));
+    let p = match guarded(|| C::from_ast(a)) {
+        Ok(Some(p)) => p,
+        Ok(None) => return Err(format!("bridge: the library's constructors reject a reference-valid value: {a:?}")),
+        Err(m) => return Err(format!("bridge: a constructor of the library panicked on a reference-valid value: {m}\n  value: {a:?}")),
     };
     match guarded(|| C::encode(&p)) {
         Ok(Ok(vb)) => {
